@@ -26,6 +26,28 @@ Disassembly of section .text:
 """
 BIN_SRC = "\t.text\nf:\n\tpush %rbx\n\tcall g\n\tpop %rbx\n\tret\ng:\n\tret\n"
 BASE = "pattern:\n- push\n- call\n- pop\n"
+# Contexts: the same single fault inside a document that also has a (valid) config section / (valid, unused) macro
+# definitions -- "an otherwise valid pair" is not only the three-line rule.  A context is applied only to documents
+# that are mappings with none of that section, so the fault stays the only thing wrong with the pair.
+CONTEXTS = {
+    "config": ("config:\n  mnemonics-full-match: true\n  operands-full-match: false\n  sections:\n  - .text\n", "config:",
+               ("rule_bad_yaml", "rule_not_mapping")),
+    "macros": ("macros:\n- name: '@zz'\n  pattern: nop\n", "macros:",
+               ("rule_bad_yaml", "rule_not_mapping", "macro_undefined_nodefs")),
+}
+
+
+def in_context(kind, r):
+    """the realisation's rule inside each applicable context: list of (context name, rule dict)"""
+    out = []
+    text = r.get("yaml", BASE)
+    if "rule_path" in r:
+        return out
+    for name, (prefix, key, excluded) in CONTEXTS.items():
+        if kind in excluded or any(line.startswith(key) for line in text.split("\n")):
+            continue
+        out.append((name, dict(r, yaml=prefix + text)))
+    return out
 
 
 def realisations(kind, d):
@@ -207,8 +229,14 @@ def run(prop, tier):
         listings.append(dict(good_input[mode], id=len(listings)))
         pairs.append([len(rules) - 1, len(listings) - 1])
         meta.append(("none", mode, "fault-free baseline"))
+        for name, (prefix, _, _) in CONTEXTS.items():
+            rules.append({"id": len(rules), "yaml": prefix + BASE})
+            pairs.append([len(rules) - 1, len(listings) - 1])
+            meta.append(("none", mode, f"fault-free baseline, {name} context"))
     for kind, mode in placements:
-        for label, r, i in realisations(kind, d):
+        reals = realisations(kind, d)
+        reals += [(f"{label} [{name} context]", r2, i) for label, r, i in reals for name, r2 in in_context(kind, r)]
+        for label, r, i in reals:
             r = dict(r)
             r.setdefault("yaml", BASE)
             r["id"] = len(rules)
